@@ -30,8 +30,11 @@ def main():
     covered = []
     skipped = []
     calls = 0
+    only = [a for a in sys.argv[1:] if not a.startswith('-')]
     for qual, c in cs.by_target.items():
         if not qual.startswith('yatiml/helpers.py::') or c.trusted:
+            continue
+        if only and qual.split('::')[1] not in only:
             continue
         try:
             cls, fn = native.real_function(qual)
@@ -51,8 +54,11 @@ def main():
             skipped.append(qual.split('::')[1])
             continue
         n0 = mon.evaluations if hasattr(mon, 'evaluations') else 0
-        r = native.replay_search_node({'function': qual, 'inputs': inputs},
-                                      mon)
+        # the methods with many argument combinations get the smaller family
+        # of two-item containers (4 kinds of items instead of 10)
+        r = native.replay_search_node(
+            {'function': qual, 'inputs': inputs}, mon, limit=10 ** 6,
+            pair_items=3 if len(params) >= 3 else None)
         covered.append(qual.split('::')[1])
         if r is not None:
             failures.append(r)
